@@ -527,6 +527,11 @@ class Densify(EnvironmentFilter):
             if self._action and 'actions' in new:
                 new['actions'] = list(map(self._make_dense,new['actions']))
 
+                if new['actions'] != interaction['actions']:
+                    for target in ['rewards','feedbacks']:
+                        if callable(new.get(target)):
+                            new[target] = DiscreteReward(new['actions'],list(map(interaction[target],interaction['actions'])))
+
             if self._action and 'action' in new:
                 new['action'] = self._make_dense(new['action'])
 
